@@ -2,7 +2,7 @@ SPECIFICATION Spec
 CONSTANTS
   NReg = 2
   Vals <- ValsTiny
-  MCKinds <- KindsAll
+  MCKinds <- KindsMCDeep
   Classes <- AllClasses
   MCFuns <- FewFuns
   MCHows <- FewHows
